@@ -12,7 +12,7 @@
    place in osmjson). *)
 From Coq Require Import ZArith List String Ascii Bool Permutation.
 From Verif Require Import C05.Json C05.Schema C05.Model C05.Fmt C05.Osm C05.Spec C05.SortTags
-     C05.Fields C05.ProofsGeneric C05.ProofsOsm C05.ProofsShape C05.ProofsLegacy C05.Codec.
+     C05.Fields C05.ProofsGeneric C05.ProofsOsm C05.ProofsShape C05.ProofsLegacy C05.Codec C05.CodecGeneric.
 From VerifGen Require Import GenJsonTags.
 Import ListNotations.
 Open Scope string_scope.
@@ -107,6 +107,40 @@ Theorem C05_codec_independent :
     osm_equiv o1 o /\ osm_equiv o2 o /\ osm_equiv o1 o2.
 Proof. exact codec_independent. Qed.
 Print Assumptions C05_codec_independent.
+
+(* 4b. the codec threaded through the WHOLE generic encoder and decoder (C05/CodecGeneric.v):
+       [enc_c .. c e] is the struct walk done by the enclosing codec e, every hand-written
+       MarshalJSON going through the configured codec c (or a byte literal) and being re-read
+       by e; [dec_c .. c s e] hands raw bytes to the UnmarshalJSON methods, which parse with
+       the codec they call (c; encoding/json s for Tags).  Under the laws they ARE the
+       tree-level functions, for every type and value — and so are the containers with every
+       marshalJSON/unmarshalJSON/findType call spelled out. *)
+Theorem C05_encoder_through_codec :
+  forall (bytes : Type) (sem : bytes -> option json) (lit : json -> bytes),
+  (forall t, sem (lit t) = Some t) ->
+  forall c : codec bytes, lawful bytes sem c ->
+  forall t (e : codec bytes) v, lawful bytes sem e ->
+  enc_c bytes lit c e t v = Some (enc (c_mapord c) t v).
+Proof. exact enc_c_ok. Qed.
+Print Assumptions C05_encoder_through_codec.
+
+Theorem C05_decoder_through_codec :
+  forall (bytes : Type) (sem : bytes -> option json) (c s : codec bytes),
+  lawful bytes sem c -> lawful bytes sem s ->
+  forall t (e : codec bytes) j, lawful bytes sem e -> dec_c bytes c s e t j = dec t j.
+Proof. exact dec_c_ok. Qed.
+Print Assumptions C05_decoder_through_codec.
+
+Theorem C05_containers_through_codec :
+  forall (bytes : Type) (sem : bytes -> option json) (lit : json -> bytes),
+  (forall t, sem (lit t) = Some t) ->
+  forall c s : codec bytes, lawful bytes sem c -> lawful bytes sem s ->
+  forall (top : codec bytes) o, lawful bytes sem top -> wf_osm o = true ->
+  exists tree o',
+    osm_marshal_c bytes lit c top o = Some tree /\
+    osm_unmarshal_c bytes c s (c_ser top tree) = Ok o' /\ osm_equiv o' o.
+Proof. exact roundtrip_all_through_codec. Qed.
+Print Assumptions C05_containers_through_codec.
 
 (* 5. the unchanged tree (/repo 8c4814b) violated the property: refutations over the model of
       the code as found, replayed on the implementation, repaired by /repo f6e3a8f, bbea2b1 *)
